@@ -6,8 +6,11 @@ A small symbolic walk over the Python AST of every function of the two modules t
 away, module-local one-line helpers (`_to_global_rank`, `_get_world_size`, a refactored `_is_receiving_rank`, …) are
 inlined, keyword / positional arguments of module-local calls are bound to the callee's parameters, loop and
 comprehension variables are numbered by binding depth, list-building loops and comprehensions have one normal form,
-`if c: …return` is restructured into if/else — so that the text of a function can be rearranged without changing its
-skeleton, while every fact the C02 / C15 proofs rest on is a node of it:
+`if c: …return` is restructured into if/else, the condition of every choice (statement or conditional expression) is kept
+in its positive form (`x if c else y` == `y if not c else x`; a guard clause `if not c: return` + rest == `if c: rest`),
+`return None` in tail position is falling off the end, `for i in range(len(S))` using only `S[i]` is `for x in S`, a hoisted
+`[e(j) for j in R if c(j)]` iterated by a comprehension is fused with it, `[a, *b]` is `[a] + list(b)` — so that the text
+of a function can be rearranged without changing its skeleton, while every fact the C02 / C15 proofs rest on is a node of it:
 
   seq | ite guard | forEach (what is iterated, e.g. `sorted(keys(d))`) | coll (kind, payload term, group term, root term,
   receive-buffer term) | call f (arguments in the callee's parameter order) | eff (stores into the result) | ret | raise
@@ -108,6 +111,162 @@ def shift_free(t):
     return t
 
 
+# ---- binders.  `for` / `flatfor` (bk, iterable, body) bind `bk` in the body; `filtered(inner, cond)` puts `cond` in the scope of
+# the binder of `inner` (after peeling further `filtered`).
+
+BINDERS = ("for", "flatfor")
+
+
+def peel_filtered(t):
+    """filtered(filtered(core, c1), c2) -> (core, [c1, c2])"""
+    conds = []
+    while is_call(t, "filtered", 2):
+        conds.append(t[2][1])
+        t = t[2][0]
+    return t, conds[::-1]
+
+
+def wrap_filtered(core, conds):
+    for c in conds:
+        core = C("filtered", core, c)
+    return core
+
+
+def has_binder(t) -> bool:
+    return mentions(t, lambda x: x[0] == "call" and x[1] in BINDERS + ("filtered", "dictof", "setof"))
+
+
+def subst_free(t, k, f):
+    """replace the FREE occurrences of ("b", k) by f() — occurrences under a binder of the same index are another variable"""
+    if t == ("b", k):
+        return f()
+    if t[0] != "call":
+        return t
+    core, conds = peel_filtered(t)
+    if conds and is_call(core) and core[1] in BINDERS and len(core[2]) == 3:
+        bk, it, body = core[2]
+        if bk == ("b", k):
+            return wrap_filtered(C(core[1], bk, subst_free(it, k, f), body), conds)
+        return wrap_filtered(C(core[1], bk, subst_free(it, k, f), subst_free(body, k, f)), [subst_free(c, k, f) for c in conds])
+    if t[1] in BINDERS and len(t[2]) == 3:
+        bk, it, body = t[2]
+        if bk == ("b", k):
+            return C(t[1], bk, subst_free(it, k, f), body)
+        return C(t[1], bk, subst_free(it, k, f), subst_free(body, k, f))
+    return ("call", t[1], [subst_free(a, k, f) for a in t[2]])
+
+
+def free_in(t, k) -> bool:
+    hit = []
+
+    def f():
+        hit.append(1)
+        return ("b", k)
+    subst_free(t, k, f)
+    return bool(hit)
+
+
+def replace_term(t, old, new, k):
+    """replace the sub-term `old` (which mentions the free ("b", k)) by `new`, outside the scope of another binder of index k"""
+    if t == old:
+        return new
+    if t[0] != "call":
+        return t
+    core, conds = peel_filtered(t)
+    if conds and is_call(core) and core[1] in BINDERS and len(core[2]) == 3:
+        bk, it, body = core[2]
+        if bk == ("b", k):
+            return wrap_filtered(C(core[1], bk, replace_term(it, old, new, k), body), conds)
+        return wrap_filtered(C(core[1], bk, replace_term(it, old, new, k), replace_term(body, old, new, k)),
+                             [replace_term(c, old, new, k) for c in conds])
+    if t[1] in BINDERS and len(t[2]) == 3:
+        bk, it, body = t[2]
+        if bk == ("b", k):
+            return C(t[1], bk, replace_term(it, old, new, k), body)
+        return C(t[1], bk, replace_term(it, old, new, k), replace_term(body, old, new, k))
+    return ("call", t[1], [replace_term(a, old, new, k) for a in t[2]])
+
+
+MARK = ("fn", "<element>")
+
+
+def b_indices(t) -> set:
+    if t[0] == "b":
+        return {t[1]}
+    return set().union(*[b_indices(a) for a in t[2]]) if t[0] == "call" else set()
+
+
+def binder_indices(t) -> set:
+    if t[0] != "call":
+        return set()
+    out = set().union(*[binder_indices(a) for a in t[2]])
+    if t[1] in BINDERS and len(t[2]) == 3 and t[2][0][0] == "b":
+        out.add(t[2][0][1])
+    return out
+
+
+def reduce_loop(bk, it, terms, term_level=True):
+    """normal form of the HEADER of a loop / comprehension `for bk in it` whose body (and conditions) are `terms`:
+       * `for i in range(len(S))` with `i` used only as `S[i]`  ==  `for x in S` with `x`;
+       * `for x in [e(j) for j in R]` (a hoisted or inlined map)  ==  `for j in R` with `e(j)` for `x`;
+       * (comprehensions) `for x in [e(j) for j in R if c(j)]`  ==  `for j in R if c(j)` with `e(j)` for `x`.
+    -> (iterable, terms, conditions to put in front)"""
+    k = bk[1]
+    pre: list = []
+    for _ in range(8):
+        if is_call(it, "range", 1) and is_call(it[2][0], "len", 1):
+            S = it[2][0][2][0]
+            if not free_in(S, k) and not has_binder(S):
+                elem = C("getitem", S, bk)
+                marked = [replace_term(x, elem, MARK, k) for x in terms]
+                if not any(free_in(x, k) for x in marked) and not any(mentions(x, lambda y: y == MARK) for x in terms):
+                    it = S
+                    terms = [tmap(x, lambda y: bk if y == MARK else y) for x in marked]
+                    continue
+        core, conds = peel_filtered(it)
+        if is_call(core, "for", 3) and (term_level or not conds):
+            bj, R, e = core[2]
+            if bj[0] == "b" and not has_binder(e) and not any(has_binder(c) for c in conds) and not free_in(R, bj[1]) \
+                    and (bj == bk or not (free_in(e, k) or any(free_in(c, k) for c in conds))):
+                ren = lambda x: subst_free(x, bj[1], lambda: bk)       # noqa: E731
+                e2 = ren(e)
+                if (b_indices(e2) - {k}) & set().union(*[binder_indices(x) for x in terms]):
+                    break                                              # a variable of e would be captured
+                terms = [subst_free(x, k, lambda: e2) for x in terms]
+                pre = pre + [ren(c) for c in conds]
+                it = R
+                continue
+        break
+    return it, terms, pre
+
+
+def loopnorm(t):
+    """top-down: the loop-header normal form on every comprehension term"""
+    if t[0] != "call":
+        return t
+    core, conds = peel_filtered(t)
+    if is_call(core) and core[1] in BINDERS and len(core[2]) == 3 and core[2][0][0] == "b":
+        bk, it, body = core[2]
+        it = loopnorm(it)
+        it, terms, pre = reduce_loop(bk, it, [body] + conds)
+        return wrap_filtered(C(core[1], bk, it, loopnorm(terms[0])), [loopnorm(c) for c in pre + terms[1:]])
+    return ("call", t[1], [loopnorm(a) for a in t[2]])
+
+
+# the condition of a choice is kept in its POSITIVE form (`x if c else y` == `y if not c else x`)
+NEGATED = {"ne": "eq", "is_not": "is", "not_in": "in", "ge": "lt", "gt": "le"}
+NEGATION = dict(list(NEGATED.items()) + [(v, k) for k, v in NEGATED.items()])
+
+
+def positive(c):
+    """-> (the condition or its negation, whichever is positive; was it negated)"""
+    if is_call(c, "not", 1):
+        return c[2][0], True
+    if c[0] == "call" and c[1] in NEGATED and len(c[2]) == 2:
+        return C(NEGATED[c[1]], *c[2]), True
+    return c, False
+
+
 def simplify(t):
     """the named normal forms"""
     def rw(t):
@@ -120,12 +279,13 @@ def simplify(t):
             t = ("call", f, a)
         if f == "not" and is_call(a[0], "not", 1):
             return a[0][2][0]
-        if f == "not" and is_call(a[0], "is", 2):
-            return C("is_not", *a[0][2])
-        if f == "not" and is_call(a[0], "is_not", 2):
-            return C("is", *a[0][2])
-        if f == "not" and is_call(a[0], "eq", 2):
-            return C("ne", *a[0][2])
+        if f == "not" and a[0][0] == "call" and a[0][1] in NEGATION and len(a[0][2]) == 2:
+            return C(NEGATION[a[0][1]], *a[0][2])
+        if f == "ite":
+            p, neg = positive(a[0])
+            if neg:
+                a = [p, a[2], a[1]]
+                t = ("call", f, a)
         # `_to_global_rank(group, r)`: r for the default group, else dist.get_global_rank(group, r)
         if f == "ite" and is_call(a[0], "is", 2) and NONE in a[0][2]:
             g = [x for x in a[0][2] if x != NONE]
@@ -166,7 +326,7 @@ def simplify(t):
         if f == "ite" and a[0] == FF:
             return a[2]
         return t
-    return tmap(t, rw)
+    return loopnorm(tmap(t, rw))
 
 
 # ------------------------------------------------------------------ modules
@@ -388,7 +548,22 @@ class Walk:
         if isinstance(e, ast.Tuple):
             return C("()", *[self.ev(x, env) for x in e.elts])
         if isinstance(e, ast.List):
-            return C("[]", *[self.ev(x, env) for x in e.elts])
+            # `[a, *b, c]`  ==  `[a] + list(b) + [c]`
+            segs, cur = [], []
+            for x in e.elts:
+                if isinstance(x, ast.Starred):
+                    if cur:
+                        segs.append(C("[]", *cur))
+                        cur = []
+                    segs.append(C("list", self.ev(x.value, env)))
+                else:
+                    cur.append(self.ev(x, env))
+            if cur or not segs:
+                segs.append(C("[]", *cur))
+            t = segs[0]
+            for x in segs[1:]:
+                t = C("add", t, x)
+            return t
         if isinstance(e, ast.Dict):
             if any(k is None for k in e.keys):
                 raise Unsupported("dict unpacking")
@@ -804,26 +979,128 @@ def _assigned_in(st, nm):
     return False
 
 
-def normalise(nodes):
-    """`ensure` rule A: `if k not in d(.keys()): d[k] = v` is `d.setdefault(k, v)`; drop empty branches"""
+def nodes_terms(nodes):
     out = []
     for n in nodes:
+        k = n[0]
+        if k == "ret":
+            out.append(n[1])
+        elif k == "eff":
+            out += n[2]
+        elif k == "call":
+            out += n[3]
+        elif k == "coll":
+            out += [n[3], n[4], n[5], n[6]]
+        elif k == "ite":
+            out += [n[1]] + nodes_terms(n[2]) + nodes_terms(n[3])
+        elif k == "for":
+            out += [n[2]] + nodes_terms(n[3])
+    return out
+
+
+def nodes_rebuild(nodes, it):
+    """the same nodes with their terms taken from the iterator `it` (order of `nodes_terms`)"""
+    out = []
+    for n in nodes:
+        k = n[0]
+        if k == "ret":
+            out.append(("ret", next(it)))
+        elif k == "eff":
+            out.append(("eff", n[1], [next(it) for _ in n[2]]))
+        elif k == "call":
+            out.append(("call", n[1], n[2], [next(it) for _ in n[3]]))
+        elif k == "coll":
+            out.append(("coll", n[1], n[2], next(it), next(it), next(it), next(it)))
+        elif k == "ite":
+            c = next(it)
+            a = nodes_rebuild(n[2], it)
+            out.append(("ite", c, a, nodes_rebuild(n[3], it)))
+        elif k == "for":
+            i = next(it)
+            out.append(("for", n[1], i, nodes_rebuild(n[3], it)))
+        else:
+            out.append(n)
+    return out
+
+
+def _writes(nodes, pred):
+    """is a container satisfying `pred` written (store / append / ensure / new) in these nodes"""
+    for n in nodes:
+        if n[0] == "eff" and n[1] in ("store", "append", "ensure", "new") and pred(n[2][0]):
+            return True
+        if n[0] == "ite" and (_writes(n[2], pred) or _writes(n[3], pred)):
+            return True
+        if n[0] == "for" and _writes(n[3], pred):
+            return True
+    return False
+
+
+def _root(t):
+    while is_call(t, "getitem", 2):
+        t = t[2][0]
+    return t
+
+
+def norm_for(n):
+    """the loop-header normal form (`reduce_loop`) of a statement loop"""
+    _, k, it, body = n
+    bk = ("b", k)
+    if is_call(it, "range", 1) and is_call(it[2][0], "len", 1):
+        S = it[2][0][2][0]
+        elem = C("getitem", S, bk)
+        # `S[i] = v` / `S.append(v)` in the body: the index loop is not the element loop
+        if _writes(body, lambda t: t == elem or t == S):
+            return n
+    terms = nodes_terms(body)
+    core, _c = peel_filtered(it)
+    if is_call(core, "for", 3):
+        # `xs = [e(j) for j in R]; for x in xs: body` evaluates every e(j) BEFORE the body runs: fused with the loop only
+        # when the body cannot change what e reads (no collective / communicating call, nothing e mentions is written)
+        roots = []
+        _writes(body, lambda t: roots.append(_root(t)) is not None and False)
+        if count_nodes(body, "coll") or count_nodes(body, "call") or any(mentions(core[2][2], lambda y, r=r: y == r) for r in roots):
+            return n
+    it2, terms2, _pre = reduce_loop(bk, it, terms, term_level=False)
+    if it2 == it:
+        return n
+    return ("for", k, it2, nodes_rebuild(body, iter([simplify(t) for t in terms2])))
+
+
+def normalise(nodes, tail=True):
+    """statement-level normal forms:
+       * `ensure`: `if k not in d(.keys()): d[k] = v` is `d.setdefault(k, v)`;
+       * the guard of an if/else is kept positive (`if not c: A else: B` == `if c: B else: A`), so a guard clause
+         `if not c: return` + rest is the same as `if c: rest`;
+       * in tail position (nothing of the function follows) `return None` is falling off the end, and
+         `if c: return A` is `return A if c else None`;
+       * loop headers (`norm_for`); empty branches dropped."""
+    out = []
+    for i, n in enumerate(nodes):
+        last = tail and i == len(nodes) - 1
         if n[0] == "ite":
-            a, b = normalise(n[2]), normalise(n[3])
+            a, b = normalise(n[2], last), normalise(n[3], last)
             c = n[1]
-            if not b and len(a) == 1 and a[0][0] == "eff" and a[0][1] == "store" and is_call(c, "not_in", 2):
+            p, neg = positive(c)
+            if neg:
+                c, a, b = p, b, a
+            if not a and len(b) == 1 and b[0][0] == "eff" and b[0][1] == "store" and is_call(c, "in", 2):
                 k, d = c[2]
                 if is_call(d, ".keys()", 1):
                     d = d[2][0]
-                tgt, v = a[0][2]
+                tgt, v = b[0][2]
                 if tgt == C("getitem", d, k):
                     out.append(("eff", "ensure", [d, k, v]))
                     continue
             if not a and not b:
                 continue
+            if last and ((not a and len(b) == 1 and b[0][0] == "ret") or (not b and len(a) == 1 and a[0][0] == "ret")):
+                out.append(("ret", simplify(C("ite", c, a[0][1] if a else NONE, b[0][1] if b else NONE))))
+                continue
             out.append(("ite", c, a, b))
         elif n[0] == "for":
-            out.append(("for", n[1], n[2], normalise(n[3])))
+            out.append(norm_for(("for", n[1], n[2], normalise(n[3], False))))
+        elif n[0] == "ret" and last and n[1] == NONE:
+            continue
         else:
             out.append(n)
     return out
@@ -1105,26 +1382,18 @@ class Interp:
         return self.glob(fr["mk"], f)(*pos, **kw)
 
     def ev_for(self, t, fr):
-        f, a = t[1], t[2]
-        if f == "filtered":
-            inner, cond = a
-            bk, it, body = inner[2]
-            k = bk[1]
-            out = []
-            saved = fr["b"].get(k)
-            for x in self.ev(it, fr):
-                fr["b"][k] = x
-                if self.ev(cond, fr):
-                    out.append(self.ev(body, fr))
-            fr["b"][k] = saved
-            return out
-        bk, it, body = a
+        core, conds = peel_filtered(t)
+        f = core[1]
+        bk, it, body = core[2]
         k = bk[1]
         out = []
         saved = fr["b"].get(k)
         for x in self.ev(it, fr):
             fr["b"][k] = x
+            if not all(self.ev(c, fr) for c in conds):
+                continue
             v = self.ev(body, fr)
+            fr["b"][k] = x                 # a nested comprehension of the same index restores, but be explicit
             if f == "flatfor":
                 out.extend(v)
             else:
